@@ -242,7 +242,16 @@ def build(lib):
             pf = it.ctx.fresh_func('prod', z3.IntSort(), z3.RealSort())
             j = z3.Int(it.ctx._name('j'))
             it.ctx.assume(pf(0) == 1)
-            it.ctx.assume(z3.ForAll([j], z3.Implies(j >= 0, pf(j + 1) == pf(j) * to_real(seq.element(j)))))
+            # the element is evaluated for an index inside the sequence (its safety obligations must not see an arbitrary j)
+            it.ctx.solver.push()
+            npc = len(it.ctx.pc)
+            try:
+                it.ctx.assume(z3.And(j >= 0, j < to_num(seq.length)))
+                ej = to_real(seq.element(j))
+            finally:
+                it.ctx.solver.pop()
+                del it.ctx.pc[npc:]
+            it.ctx.assume(z3.ForAll([j], z3.Implies(z3.And(j >= 0, j < to_num(seq.length)), pf(j + 1) == pf(j) * ej)))
             return pf(to_num(seq.length))
         acc = z3.RealVal(1)
         for x in seq:
